@@ -81,9 +81,12 @@ def parseOptional {α : Type} (st : PState) (expected : Token) (cb : PState → 
     match t.res with
     | .ok k =>
       if k = expected then
-        match cb st.next.2 with
-        | .ok (a, st') => .ok (some a, st')
+        match parseToken st expected with
         | .error e => .error e
+        | .ok (_, st1) =>
+          match cb st1 with
+          | .ok (a, st') => .ok (some a, st')
+          | .error e => .error e
       else .ok (none, st)
     | .error e => .error (.Lexer e t.span)
   | none => .ok (none, st)
